@@ -9,6 +9,7 @@ import (
 
 	"pgregory.net/rapid"
 	"verif/harness/hist"
+	"verif/harness/live"
 	"verif/harness/observe"
 )
 
@@ -98,6 +99,11 @@ func isASCII(s string) bool {
 func (o *c02) After(x *hctx, s hist.Step, res hist.Res, mres hist.MRes) string {
 	if res.Skipped {
 		return ""
+	}
+	if cs, es := hist.PipelineSuffix(x.cfg); s.Op == "rename" && res.Err == nil && cs+es != "" && strings.HasSuffix(hist_clean(s.Path2), cs+es) {
+		if n := x.mr.M.Get(s.Path2); n != nil && n.Kind == "file" {
+			live.S.Class("file_renamed_to_suffix_name")
+		}
 	}
 	if o.dirtyPaths == nil {
 		o.dirtyPaths = map[string]bool{}
